@@ -373,6 +373,12 @@ func (k *updatingKeyPair) handleAckFor(pnum packetNumber) {
 		k.phase ^= keyPhaseBit
 		k.r.update()
 		k.w.update()
+		// When the peer initiated this update, updateAfter still holds the
+		// threshold of the update we did not need to initiate. Don't start
+		// another update with the very next packet: the peer may still be
+		// waiting for our acknowledgement of its first packet in this phase
+		// and cannot read packets from the phase after it.
+		k.updateAfter = max(k.updateAfter, k.minSent+(1<<22))
 	}
 }
 
